@@ -256,3 +256,33 @@ def checkEqualWith (close : Rat → Rat → Bool) (c1 c2 : CS) (excludeSize : Bo
 def checkEqual (c1 c2 : CS) (excludeSize : Bool) : Except Err (Bool × List CsField) := checkEqualWith npClose c1 c2 excludeSize
 
 end Darsia
+
+/-! ### in-place life of an image's geometry (`Image.reset_origin`, assigning `origin` / `dimensions`) -/
+namespace Darsia
+
+/-- what can happen to the geometry of ONE image object between two conversions -/
+inductive GeomOp
+  | touch                          -- `img.coordinatesystem` / `opposite_corner` / `voxel_size` requested (builds a NEW CoordinateSystem from the current fields)
+  | resetOrigin                    -- `img.reset_origin()`
+  | setOrigin (o : List Rat)       -- `img.origin = …` / `update_metadata(origin=…)`
+  | setDimensions (D : List Rat)   -- `img.dimensions = …`
+  deriving Repr, DecidableEq
+
+/-- `Image.coordinatesystem` is a property that constructs the coordinate system from the image's CURRENT fields:
+the state of the model is just those fields, and requesting a conversion leaves it unchanged -/
+def CS.applyOp (cs : CS) : GeomOp → Except Err CS
+  | .touch => .ok cs
+  | .resetOrigin => (defaultOrigin cs.dim cs.dims).map fun o => { cs with origin := o }
+  | .setOrigin o => .ok { cs with origin := o }
+  | .setDimensions D => .ok { cs with dims := D }
+
+def CS.applyOps (cs : CS) (ops : List GeomOp) : Except Err CS := ops.foldlM CS.applyOp cs
+
+/-- the guard under which an operation keeps the geometry well formed -/
+def GeomOp.okFor (d : Dim) : GeomOp → Prop
+  | .touch => True
+  | .resetOrigin => True
+  | .setOrigin o => o.length = d.toNat
+  | .setDimensions D => D.length = d.toNat ∧ ∀ x ∈ D, (0 : Rat) < x
+
+end Darsia
